@@ -150,6 +150,8 @@ type c05Cand struct {
 	num      *big.Float
 	str      *string
 	length   int
+	lenLo    int  // for a known set that stores unknown members: the least length it may turn out to have (its
+	partial  bool // wholly known members cannot coalesce, its unknown ones may); length is then the greatest
 	sameType bool
 	excluded bool // the library answered False once: it must keep answering False
 }
@@ -167,6 +169,9 @@ func (m *c05Model) admits(cd *c05Cand) bool {
 		case m.knownStr != nil:
 			return cd.str != nil && *cd.str == *m.knownStr
 		case m.t.K == KList || m.t.K == KSet || m.t.K == KMap:
+			if cd.partial {
+				return false // (a known start value is compared with wholly known candidates only)
+			}
 			return cd.length == m.knownLen // collOfLen is a function of (type, length)
 		}
 		return true // other known kinds: candidates are not compared exactly
@@ -197,6 +202,10 @@ func (m *c05Model) admits(cd *c05Cand) bool {
 	case KString:
 		return strings.HasPrefix(*cd.str, m.prefix)
 	case KList, KSet, KMap:
+		if cd.partial {
+			// admitted if some length it may turn out to have is: never to be answered False then
+			return cd.length >= m.minLen && cd.lenLo <= m.maxLen
+		}
 		return cd.length >= m.minLen && cd.length <= m.maxLen
 	}
 	return true
@@ -732,6 +741,28 @@ func c05Candidates(c *Ctx, t *TDesc) []*c05Cand {
 	case KList, KSet, KMap:
 		for n := 0; n <= 6; n++ {
 			add(&c05Cand{v: collOfLen(t, n), desc: fmt.Sprintf("%s of length %d", kindNames[t.K], n), length: n, sameType: true})
+		}
+		if t.K == KSet {
+			// known sets that store unknown members: their length is only known to lie between the number of wholly
+			// known members (at least one) and the number stored
+			for q := 0; q < 3; q++ {
+				k, u := c.G(4), 1+c.G(3)
+				var vs []cty.Value
+				if k > 0 {
+					vs = collOfLen(t, k).AsValueSlice()
+				}
+				for i := 0; i < u; i++ {
+					vs = append(vs, cty.UnknownVal(t.Elem.Cty()))
+				}
+				lo := k
+				if lo < 1 {
+					lo = 1
+				}
+				if k+u < 2 {
+					continue // (a single stored member: the length is known)
+				}
+				add(&c05Cand{v: cty.SetVal(vs), desc: fmt.Sprintf("set of %d known and %d unknown members", k, u), length: k + u, lenLo: lo, partial: true, sameType: true})
+			}
 		}
 		add(&c05Cand{v: cty.StringVal("x"), desc: "string", sameType: false})
 	case KBool:
